@@ -1587,9 +1587,9 @@ class Parameter(_ParameterBase):
                     self._validate(val)
                 self._validate_settable(obj, val, ref)
             if ref is not None:
-                self.owner.param._update_ref(name, ref)
+                obj.param._update_ref(name, ref)
             elif name in refs and not syncing:
-                self.owner.param._update_ref(name)
+                obj.param._update_ref(name)
             if is_async:
                 # Scheduled once the reference is in place: without a
                 # running event loop the executor runs the task right away
